@@ -26,7 +26,7 @@ def run(tier, seed):
                                   "explanation": "trace validation against a byte-level TLA+ reference (no state exploration): for every marshalled message TLC "
                                                  "recomputes CRC32C of the standard encoding and the 6-byte field-2047 prefix, scans both encodings with a wire-format "
                                                  "parser, and checks the recorded decode-equality and error-passthrough flags"},
-                                 ["messages are seeded random struct/list/value trees, wrappers, datastore entities, messages with unknown fields, empty and 100-400 byte payloads; field numbers stay below 2^25 (TLC integers are 32-bit)",
+                                 ["messages are seeded random struct/list/value trees, wrappers, datastore entities, messages with unknown fields, hand-written messages of the older API generation, empty, 100-400 byte and 4-16 KiB payloads (lengths around 4096, 8192, 16384); field numbers stay below 2^25 (TLC integers are 32-bit)",
                                   "message equality after decoding is judged by proto.Equal plus byte equality of the remaining unknown fields in the harness (TLC has no protobuf semantics)"],
                                  t0, outp, "checksum", level="other")
     finally:
